@@ -55,7 +55,7 @@ Print Assumptions C12_no_reload_while_held_refuted.
    EnableReloads no Reload and no API call happens -- with the same restriction *)
 Theorem C12_ctl_no_reload_while_held_partial :
   forall e ts c,
-    (forall t, In t ts -> forall o, In o (t_work t) -> forces_enable e o = false) ->
+    (forall t, In t ts -> forall o, In o (t_work t ++ t_all_pre t) -> forces_enable e o = false) ->
     held_scan (negb (enabled (cfg c))) (strace (snd (run_sync e c ts)))
     = Some (negb (enabled (cfg (fst (run_sync e c ts))))).
 Proof. exact ctl_no_reload_while_held_partial. Qed.
@@ -209,7 +209,7 @@ Print Assumptions C12_ctl_failure_propagates_refuted.
 Theorem C12_ctl_failure_reported_fixed :
   forall e c t,
     fx_batchrep (fx e) = true -> fx_endprep (fx e) = true ->
-    (t_kind t = TOther -> t_reports t = true) -> t_all_reports t = true -> t_all t <> [] ->
+    (t_kind t <> TConfigMap -> t_reports t = true) -> t_all_reports t = true -> t_all t <> [] ->
     let x := snd (sync e c t) in
     reported x = existsb is_failed_reload (slog x) /\ swallowed x = false.
 Proof. exact ctl_failure_reported_fixed. Qed.
@@ -253,7 +253,7 @@ Proof. vm_compute. repeat split; reflexivity. Qed.
 
 (* a batch of three tasks at the controller in which a file changes: the draining sync reloads *)
 Definition ex_task (k : tkind) (q : nat) (w : list op) (f : bool) : task :=
-  {| t_kind := k; t_qlen := q; t_work := w; t_found := f; t_reports := true; t_all_reports := true; t_mainver := 0; t_all := [] |}.
+  {| t_kind := k; t_qlen := q; t_work := w; t_found := f; t_reports := true; t_all_reports := true; t_all_pre := []; t_mainver := 0; t_all := [] |}.
 Example C12_nonvacuous_batch :
   strace (snd (run_sync (env_ok false) ctl_init
      [ex_task TOther 0 [] false;
